@@ -15,24 +15,29 @@ SCRATCH = os.environ.get("ZX_SEEDED_SCRATCH", "/tmp/zx-seeded-run-%d" % os.getpi
 def main():
     ids = sys.argv[1:] or sorted(os.listdir(os.path.join(ROOT, "seeded")))
     rows = []
+    scratch = None
     for sid in ids:
         d = os.path.join(ROOT, "seeded", sid)
         if not os.path.exists(os.path.join(d, "meta.json")):
             continue
         meta = json.load(open(os.path.join(d, "meta.json")))
-        shutil.rmtree(SCRATCH, ignore_errors=True)
-        subprocess.run(["rsync", "-a", "--exclude", "target", "--exclude", ".git", "/repo/", SCRATCH + "/"], check=True)
-        p = subprocess.run(["patch", "-p1", "-s", "-i", os.path.join(d, "patch.diff")], cwd=SCRATCH)
+        # one directory per seeded change: ./check cleans the crates under test when the path it is
+        # pointed at changes, so nothing built from the previous change can be reused
+        shutil.rmtree(scratch, ignore_errors=True) if scratch else None
+        scratch = SCRATCH + "-" + sid
+        shutil.rmtree(scratch, ignore_errors=True)
+        subprocess.run(["rsync", "-a", "--exclude", "target", "--exclude", ".git", "/repo/", scratch + "/"], check=True)
+        p = subprocess.run(["patch", "-p1", "-s", "--no-backup-if-mismatch", "-i", os.path.join(d, "patch.diff")], cwd=scratch)
         if p.returncode != 0:
             rows.append((sid, meta["property"], "PATCH DOES NOT APPLY", ""))
             continue
-        env = dict(os.environ, ZX_REPO=SCRATCH)
+        env = dict(os.environ, ZX_REPO=scratch)
         for prop in meta.get("check_with", [meta["property"]]):
             r = subprocess.run([os.path.join(ROOT, "check"), prop], cwd=ROOT, env=env, stdout=subprocess.PIPE,
                                stderr=subprocess.DEVNULL, text=True)
             viol = [l for l in r.stdout.splitlines() if l.startswith("VIOLATION")]
             rows.append((sid, prop, "DETECTED" if viol else "MISSED (rc=%d)" % r.returncode, viol[0] if viol else ""))
-    shutil.rmtree(SCRATCH, ignore_errors=True)
+    shutil.rmtree(scratch, ignore_errors=True) if scratch else None
     # point the harness back at /repo
     subprocess.run([os.path.join(ROOT, "check"), "C06"], cwd=ROOT, stdout=subprocess.DEVNULL, stderr=subprocess.DEVNULL)
     subprocess.run(["git", "-C", ROOT, "checkout", "--", "evidence", "lean/ZxVerif/Extracted"], stderr=subprocess.DEVNULL)
